@@ -395,6 +395,27 @@ class GmdH(_Base):
     def _numeric(self, cfg, H, x, noise_var=None):
         return super()._numeric(cfg, H.real.copy(), x)
 
+    def concrete(self, cfg, rng):
+        k = super().concrete(cfg, rng)
+        # boundary of the symbolic assumption s0 > s1 (concrete, stated as
+        # such): ALL singular values tied (identity, scaled identity, scaled
+        # permutation, scaled rotation), where gmd() must not rotate at all
+        for n in (2, 3, 4):
+            c = dict(cfg, Nr=n, Nt=n)
+            perm = np.eye(n)[[(i + 1) % n for i in range(n)]]
+            rot = np.linalg.qr(np.array(
+                [[float(rng.randrange(-3, 4)) for _ in range(n)]
+                 for _ in range(n)]) + 4 * np.eye(n))[0]
+            for H in (np.eye(n), 2.5 * np.eye(n), 0.5 * perm, 3.0 * rot):
+                bad = self._numeric(c, H, crandn(rng, n))
+                if bad:
+                    from pysym.runner import ConcreteViolation
+                    raise ConcreteViolation(
+                        'C04/GMDMimo/tied-singular-values:' + '+'.join(bad),
+                        dict(H=H.tolist(), bad=bad))
+                k += 1
+        return k
+
 
 class HistoryH(_Base):
     """Scheme objects are stateful (channel, noise variance): after any
@@ -516,7 +537,9 @@ MANIFEST = dict(
     'abstraction with instantiated pinv/solve/svd contracts.',
     note='pinv/solve/svd are contract stubs (full-rank genericity); '
     'math.sqrt(Nt) idealised as exact; floats as reals; MMSE->ZF limit '
-    'outside'
+    'outside; the symbolic GMD unit assumes s0 > s1 - the tied case (all '
+    'singular values equal, 2x2..4x4) is a concrete boundary probe of the '
+    'real GMDMimo'
     '. Concrete data-representation / scale / boundary probes of the real'
     ' code (dtype, container and memory-layout variants, argument'
     ' immutability, magnitudes) accompany the symbolic runs; they are'
